@@ -176,6 +176,19 @@ fn dump_crate<'tcx>(tcx: TyCtxt<'tcx>, tag: &str) -> J {
         for (k, v) in ser.ext.into_inner() {
             ext_adts.entry(k).or_insert(v);
         }
+        // methods of impls inside anonymous consts (derive output) share one def path: record the impl's
+        // self type and make the key unique
+        let mut path = path;
+        if matches!(dk, DefKind::AssocFn | DefKind::AssocConst { .. }) {
+            let parent = tcx.parent(ldid.to_def_id());
+            if matches!(tcx.def_kind(parent), DefKind::Impl { .. }) {
+                let st = tcx.type_of(parent).instantiate_identity().skip_norm_wip();
+                o.push(("impl_self", J::s(st.to_string())));
+                if bodies.iter().any(|(p, _)| *p == path) || path.contains("::_::") {
+                    path = format!("<{} as {}>::{}", st, path.rsplit_once("::").map(|x| x.0).unwrap_or(""), tcx.item_name(ldid.to_def_id()));
+                }
+            }
+        }
         bodies.push((path, J::Obj(o)));
     }
     // closure MIR facts, keyed by closure def path
